@@ -8,6 +8,7 @@ def contract(lv):
         (old_range.end - old_range.start) <= u32::MAX || (new_range.end - new_range.start) <= u32::MAX,   // table cells are u32
     ensures
         err_post(*vstd::prelude::old(d), *final(d), res),
+        (*final(d)).fobs() == (*vstd::prelude::old(d)).fobs(),
         seg_post(*vstd::prelude::old(d), *final(d), old, old_range, new, new_range, LVL, false, fin::<D>(), res.is_ok()),
 '''.replace('LVL', lv)
 mt = o.find('fn make_table<Old, New>(')
@@ -89,7 +90,7 @@ p = call(o, p, 'd.equal(old_range.start, new_range.start, common_prefix_len)?;',
      'Ev::Equal(old_range.start, new_range.start, common_prefix_len)', 'oc = oc + common_prefix_len; nc = nc + common_prefix_len;')
 INV = '''
     invariant
-        alg_inv(*d, d0, t0, s, rel, lvl, rs0, o0, n0, oc, nc),
+        alg_inv(*d, d0, t0, s, rel, lvl, rs0, o0, n0, oc, nc), (*d).fobs() == d0.fobs(),
         box_pre(old, old_range, new, new_range), rely_pre(d0, old, old_range, new, new_range, lvl),
         rel == rel_of(old, new), lvl == alg_lvl(deadline), r1 == d0.rely_rel(), o0 == old_range.start, n0 == new_range.start,
         d0 == *vstd::prelude::old(d), rs0 == d0.rely_st(), t0 == d0.trace(), oe0 == old_range.end, ne0 == new_range.end,
